@@ -5,7 +5,7 @@ from __future__ import annotations
 import ast
 
 from sa.cfg import CFG, N, all_paths_pass, dominators, find_path, fmt_path, reachable
-from sa.db import FuncInfo, ProgramDB, dotted, src, walk_local
+from sa.db import FuncInfo, ProgramDB, ancestors, dotted, src, walk_local
 from sa.model import contains, template_classes
 
 EVENT_BUILDERS = {
@@ -373,7 +373,41 @@ def exposes_selection_else_all(db: ProgramDB, f: FuncInfo, value: ast.AST) -> bo
         return e
 
     b = base(value)
+    if isinstance(value, ast.Constant) and isinstance(value.value, str):
+        # internal: base of one branch only (statement form below)
+        return False
     return isinstance(b, ast.IfExp) and src(b.test) == "graph.selected is not None" and src(b.body) == "graph.selected" and src(b.orelse) == "graph.outputs"
+
+
+def wrapper_outputs_expose_selection(db: ProgramDB, f: FuncInfo, outs: list[ast.Assign]) -> bool:
+    """The assignment(s) of a wrapper's outputs amount to 'selection if set, else all outputs' — as one conditional
+    expression, or as the two branches of ``if graph.selected is not None: ... else: ...``."""
+    if len(outs) == 1:
+        return exposes_selection_else_all(db, f, outs[0].value)
+    if len(outs) != 2:
+        return False
+    defs = {nm: ds[0].value for nm, ds in db.local_defs(f).items() if len(ds) == 1 and getattr(ds[0], "value", None) is not None}
+
+    def base(e: ast.AST, depth: int = 0) -> ast.AST:
+        if isinstance(e, ast.Name) and e.id in defs and depth < 3:
+            return base(defs[e.id], depth + 1)
+        if isinstance(e, ast.Call) and dotted(e.func) in ("tuple", "list") and len(e.args) == 1:
+            return base(e.args[0], depth + 1)
+        if isinstance(e, (ast.GeneratorExp, ast.ListComp)) and len(e.generators) == 1 and isinstance(e.elt, ast.Name) and src(e.elt) == src(e.generators[0].target):
+            return base(e.generators[0].iter, depth + 1)
+        return e
+
+    for a in ancestors(outs[0]):
+        if isinstance(a, ast.If) and len(a.orelse) >= 1:
+            t = src(a.test)
+            in_body = [o for o in outs if any(o is x or contains(x, o) for x in a.body)]
+            in_else = [o for o in outs if any(o is x or contains(x, o) for x in a.orelse)]
+            if len(in_body) == 1 and len(in_else) == 1:
+                if t == "graph.selected is not None":
+                    return src(base(in_body[0].value)) == "graph.selected" and src(base(in_else[0].value)) == "graph.outputs"
+                if t == "graph.selected is None":
+                    return src(base(in_else[0].value)) == "graph.selected" and src(base(in_body[0].value)) == "graph.outputs"
+    return False
 
 
 def state_update_sites(ctx, uv: FuncInfo):
